@@ -151,6 +151,40 @@ pub fn representatives() -> Vec<Case> {
     out
 }
 
+/// `SourceFile::location_offset` (a script embedded in a host file at line N: reports display shifted line numbers and
+/// name the file `name@N`): every stage's report — lexer, parser, escape error, type error with several labels, a
+/// module tree — with the text starting at line N + 1 of its host. The kind carries the offset (`[line+N]`).
+pub fn line_offsets() -> Vec<Case> {
+    use super::CaseFile;
+    const SOURCES: &[&str] = &[
+        "fn main() {\n    let x = $;\n}\n",
+        "fn main() {\n\n\n    let x = ;\n}",
+        "fn main() -> String {\n    f\"{{€\\q\"\n}\n",
+        "fn main(x: i32) -> String {\n    // é\n    x\n}\n",
+        "fn f(a: i32) {}\nfn main() {\n    f(1, 2);\n    let é = g();\n}\n",
+        "type A { x: A }\n\n\nfn main(a: A) {}\n",
+        "fn main() {\n    match 1 {\n    }\n}",
+        "",
+        "\n\n\n€",
+    ];
+    let mut out = vec![];
+    for n in [1usize, 9, 99, 999, 65_535, 1_000_000] {
+        let kind = format!("boundary line-offset [line+{n}]");
+        for src in SOURCES {
+            out.push(Case::single(&kind, src.to_string()));
+        }
+        out.push(Case {
+            kind: kind.clone(),
+            files: vec![
+                CaseFile { name: "pkg.roto".into(), module: "pkg".into(), parent: None, src: "import m.nope;\nfn main() {\n    m.f(1);\n}\n".into() },
+                CaseFile { name: "m.roto".into(), module: "m".into(), parent: Some(0), src: "\n\nfn f() -> é {\n    \"€\\q\"\n}\n".into() },
+            ],
+            expect_cycle: None,
+        });
+    }
+    out
+}
+
 /// A random member of the class: an f-string (sometimes a string / character literal) assembled from brace
 /// escapes, fillers of every width, valid and fatal escapes and interpolations, at a random place.
 pub fn random_case(p: &mut Prng) -> Case {
@@ -179,5 +213,10 @@ pub fn random_case(p: &mut Prng) -> Case {
     }
     lit.push_str(if quote == "'" { "'" } else { "\"" });
     let ctx = p.below(CONTEXTS.len() as u64) as usize;
+    // one in eight is embedded in a host file at a random line
+    if p.chance(1, 8) {
+        let n = if p.chance(1, 2) { 1 + p.below(100) } else { 1 + p.below(1_000_000) };
+        return Case::single(&format!("escape-span [line+{n}]"), place(ctx, &lit));
+    }
     Case::single("escape-span", place(ctx, &lit))
 }
